@@ -32,7 +32,7 @@ CLAIMED = {
             'every transition runs theory.check_proof with gaps allowed and disallowed and is compared with a position-based '
             'reference checker, the finite-model oracle and gap accounting; plus all (stated theorem, proof) pairs of checked_extend.',
             'Trusted: the reference checker in mc/props/c02.py (7 rules over one boolean variable), mc/holsem.py. States are merged '
-            'by the table path -> (id, sequent, placeholder?, block?) (argument in state_key). Depth 3 (thorough 4), menus in bounds.',
+            'by the table path -> (id, sequent, placeholder?, block?) (argument in state_key). Depth 3; thorough uses the full flat-item menu also at depth 3 (menus in bounds).',
             'DESIGN.md §3 C02'),
     'C03': ('exploration',
             'bounded exhaustive enumeration of terms/instantiations/object histories on the real Term/Type classes, reference-term oracle',
@@ -132,21 +132,21 @@ CLAIMED = {
             'DESIGN.md §3 C11'),
     'C13': ('model_checking',
             'explicit-state BFS over editing histories of the real ProofState (live replay + copy application), invariant checking in every state',
-            'From 14 generated goals, every suggestion of search_method for every gap and every selection of <=2 visible facts plus '
+            'From 16 generated goals, with two menus per goal (wide: selections of <=2 facts, all parameterised operations; narrow: <=1 fact, cut and introduction only, one step deeper), every suggestion of search_method for every gap and every selection of <=2 visible facts plus '
             'cut/cases/introduction/new_var with parameters from a state-derived menu; plus every prefix of the recorded steps of the '
             'library proofs of the tier. In every reached state: full re-check with gaps == placeholders, last line == stated goal, '
             'ids == positions, citations earlier and visible, finished proofs pass no_gaps=True, export/re-import gives the same lines '
             'and result, copies are isolated, histories replay identically on a fresh state.',
             'States merged by (variables, exported proof). z3 switched off. revert_intro and cut/cases with a formula that already is '
             'the statement of a line are not in the menu (see DESIGN.md §5: they expose preconditions the editor does not check). '
-            'Depth 4 / 250 states per goal (thorough 6 / 3000).',
+            'Depth 3 (wide) / 4 (narrow), 2500 / 4000 states per goal and menu (thorough: 5000 / 8000 and library theory set in addition); caps that are reached are named in the evidence (x_cap_hit). Open findings F-C13-5/6 (thorough only).',
             'DESIGN.md §3 C13'),
     'C14': ('model_checking',
             'the C13 state graph; every (state, goal line, fact selection, suggestion) is executed on a copy and compared with what it advertised',
             'For every reached state and every library-proof prefix: every entry returned by search_method without open declared '
             'parameters must apply or ask for named parameters; afterwards the new open goals are among the advertised ones, a '
             '"solves" entry leaves none, advertised facts are proved lines, and the full re-check succeeds.',
-            'Suggestions with open declared parameters are only counted. Known open finding F-C14-1 (eta-contracted goals and someI).',
+            'Suggestions with open declared parameters are only counted; suggestions are judged only in states that are themselves checkable. Known open finding F-C14-1 (eta-contracted goals and someI).',
             'DESIGN.md §3 C14'),
     'C10': ('exploration',
             'bounded exhaustive enumeration of expressions/formulas/lambda-terms on the real conversions, polynomial / member-set / finite-model oracles',
